@@ -1,68 +1,15 @@
+// C10 — Governance fee split never distributes more than it is splitting.
+// Invariant monitor around every epoch settlement of real governance histories
+// (driver, generator and oracle in lib/govdrv).
 package main
 
 import (
-	"fmt"
-	"os"
-
-	"github.com/ontio/ontology/core/types"
-	gov "github.com/ontio/ontology/smartcontract/service/native/governance"
-	ninit "github.com/ontio/ontology/smartcontract/service/native/init"
-	cutils "github.com/ontio/ontology/core/utils"
-	"verifharness/lib/chain"
 	"verifharness/lib/govdrv"
 	"verifharness/lib/vf"
 )
 
 func main() {
-	dir := vf.Scratch("c10probe")
-	defer os.RemoveAll(dir)
-	w := govdrv.NewWorld("probe", 7, 0)
-	if err := w.Boot(dir + "/w0"); err != nil {
-		fmt.Println("boot:", err)
-		return
-	}
-	fmt.Println("snapshot keys", len(w.Snapshot), "boot height", w.BootHeight)
-	e := govdrv.NewVEngine(w)
-	s := govdrv.ReadState(e.View())
-	tot, pen := s.SumStake()
-	fmt.Printf("view=%d ont(gov)=%d sumStake=%d pen=%d ong(gov)=%d errs=%v pools=%d\n", s.View, s.OntGov, tot, pen, s.OngGov, s.DecodeErrs, len(s.Pool()))
-	tb := chain.NewTxBuilder(5000)
-	h, ts := uint32(414200), w.BootTime+100
-	run := func(name string, method string, params []interface{}, signers ...*govdrv.Actor) {
-		mt, err := tb.Native(0, 2000000, govdrv.GovAddr, method, params)
-		if err != nil {
-			fmt.Println(name, "build:", err)
-			return
-		}
-		for _, a := range signers {
-			if err := chain.Sign(mt, a.Acc); err != nil {
-				panic(err)
-			}
-		}
-		h++
-		ts += 50
-		r := e.Exec(chain.Immutable(mt), h, ts)
-		s := govdrv.ReadState(e.View())
-		tot, pen := s.SumStake()
-		fmt.Printf("%-22s ok=%v err=%.150s | view=%d ont=%d stake=%d pen=%d ong=%d splitFee=%d feeAddr=%d\n", name, r.OK, r.Err, s.View, s.OntGov, tot, pen, s.OngGov, s.SplitFee, len(s.FeeAddr))
-	}
-	o0, s0 := w.Owners[0], w.Stakers[0]
-	run("register", gov.REGISTER_CANDIDATE, []interface{}{&gov.RegisterCandidateParam{PeerPubkey: w.Nodes[7].PK, Address: o0.Addr(), InitPos: 20000, Caller: []byte("did:ont:x"), KeyNo: 1}}, o0)
-	run("changeMax", gov.CHANGE_MAX_AUTHORIZATION, []interface{}{&gov.ChangeMaxAuthorizationParam{PeerPubkey: w.Nodes[0].PK, Address: o0.Addr(), MaxAuthorize: 1000000}}, o0)
-	run("authorize", gov.AUTHORIZE_FOR_PEER, []interface{}{&gov.AuthorizeForPeerParam{Address: s0.Addr(), PeerPubkeyList: []string{w.Nodes[0].PK}, PosList: []uint32{5000}}}, s0)
-	run("setFeePct", gov.SET_FEE_PERCENTAGE, []interface{}{&gov.SetFeePercentageParam{PeerPubkey: w.Nodes[0].PK, Address: o0.Addr(), PeerCost: 30, StakeCost: 10}}, o0)
-	for i := 0; i < 9; i++ {
-		run(fmt.Sprintf("commit-admin-%d", i), gov.COMMIT_DPOS, []interface{}{}, w.BK)
-	}
-	// consensus style system tx
-	mt := cutils.BuildNativeTransaction(govdrv.GovAddr, gov.COMMIT_DPOS, []byte{})
-	mt.Nonce = 77
-	tx, _ := mt.IntoImmutable()
-	fmt.Println("sys code len", len(ninit.COMMIT_DPOS_BYTES))
-	h += 100
-	r := e.Exec(tx, h, ts+1000)
-	fmt.Println("sys commit:", r.OK, r.Err)
-	run("withdrawFee", gov.WITHDRAW_FEE, []interface{}{&gov.WithdrawFeeParam{Address: s0.Addr()}}, s0)
-	run("unauth", gov.UNAUTHORIZE_FOR_PEER, []interface{}{&gov.AuthorizeForPeerParam{Address: s0.Addr(), PeerPubkeyList: []string{w.Nodes[0].PK}, PosList: []uint32{5000}}}, s0)
-	var _ = types.Transaction{}
+	r := vf.NewRun("C10", "exploration", govdrv.Rule)
+	govdrv.Run(r, govdrv.Cfg{Prop: "C10", Worlds: vf.N(6, 12), Hist: vf.N(240, 4000), Len: 110, AgreeLen: vf.N(70, 200), SampleOps: 12})
+	r.Finish()
 }
